@@ -41,6 +41,20 @@ CFG = {
             "(tokens) and exists, verify with the owner's right password, remove_user, create_session(_with_lifetime), "
             "invalidate_user_session (uids); the real token / user must be untouched afterwards (observed after every "
             "step). The random sequences take half of their unknown tokens / uids from these near-misses. "
+            "LENGTH DIMENSION of the same secrets, classes TL / UL (index 1000000000+100000000*b+2000000*kind+n = "
+            "derive_len(real value b, kind, n); no hashing involved): the real token / uid EXTENDED by n characters at "
+            "the back and at the front, for every n in 1..300 (thorough 1..1100) and every n within 2 of P and of P-len "
+            "(total length within 2 of P) for P in {512,1024,2048,4096,8192,16384,32768,65536} plus 2^17 and 2^20 (quick: "
+            "P and P-len only), with five fillers each (the digit 0 repeated; the secret's own adjacent character repeated; "
+            "the secret itself repeated cyclically; pseudo-random hex digits; the two-byte character e-acute, i.e. 2n "
+            "bytes [not for n >= 100000]); TRUNCATED by every n in 1..len at the back (proper prefixes) and at the front "
+            "(proper suffixes); its last / first n characters OVERWRITTEN (same length); ROTATED by every n -- each on "
+            "get_uid_by_token, the auth-route cookie, refresh_session, invalidate_session (tokens: 416 sequences of 40 "
+            "such calls in the quick tier) and on exists, verify with the owner's right password, remove_user, "
+            "create_session(_with_lifetime), invalidate_user_session (uids: 606 sequences), the real session / user "
+            "observed untouched after every step and the short session expiring on time at the end. A sixth of the "
+            "unknown tokens / uids of the random sequences are such length near-misses (n from the list, a multiple of "
+            "256, or random up to 70000). "
             "Non-trivial = at least one session issued and one token-taking operation, or (class P) a user created and "
             "a different password refused; distinct = distinct case line.",
     "exhaustive": False,
